@@ -1,11 +1,13 @@
 import Driver.C02
 import Driver.C20
+import Driver.C09
 open Driver
 
 def handle (line : String) : String :=
   match line.trimAscii.toString.splitOn " " with
   | "c02" :: args => c02 args
   | "c20" :: args => c20 args
+  | "c09" :: args => c09 args
   | _ => "bad-op"
 
 partial def loop (h : IO.FS.Stream) (out : IO.FS.Stream) : IO Unit := do
